@@ -440,13 +440,15 @@ func shortKey(k string) string {
 
 func standardAssumptions() []string {
 	return []string{
-		"float64 is treated as mathematical real arithmetic (no rounding, NaN, Inf, -0); int as mathematical integers",
+		"float64 is treated as mathematical real arithmetic (no rounding, NaN, Inf, -0); int as mathematical integers (a conversion to a narrower or differently signed integer type is the identity inside the target range and an uninterpreted wrap outside it)",
 		"partial correctness: postconditions are proved for normally returning executions; runtime panics (index, nil map, type assertion, division) are only obligations in functions with nopanic/panics_if/panics_iff clauses; nil-pointer dereference is never an obligation",
 		"termination is not proved except where a lemma states a decreasing measure",
 		"strings are an uninterpreted sort with equality, a strict total order and uninterpreted concat/prefix/itoa; contents and error texts are not modelled",
 		"calls are replaced by the callee's contract; callees without contract are inlined when loop-free and small, otherwise treated as opaque (result unconstrained) under the global default frame contract 'writes only memory it allocated'",
-		"append growth: the new capacity is any value >= the needed length; in-place append when capacity suffices (both branches explored)",
+		"append growth: the new capacity is any value >= the needed length; in-place append when capacity suffices (both branches explored); after a call to a library function that may append to a slice argument (summary over static calls) the elements between len and cap of that argument are unknown; calls through interfaces and function values are not covered by this summary",
 		"map iteration visits keys in an arbitrary order (ghost visited-set model)",
+		"abstract spec functions and predicates keyed on an interface value carry no heap argument: the object behind it is assumed not to change while the abstract value is in use; an argument whose dynamic type is statically known gets that type's definitions ('refines ... with') at the call",
+		"pointers into a slice element returned across a call are modelled as separate objects (writes through them are not seen through the slice)",
 		"external functions (fmt, math, sort, strings, strconv, math/rand, mapstructure) are used through assumed contracts listed in coverage.assumed_external_contracts",
 		"recursive spec functions are uninterpreted symbols unfolded at use sites (fuel 2); their definitions are assumed well-founded (each decreases an integer argument)",
 		"closed world: the implementations of each interface are those defined in /repo/lib",
